@@ -28,14 +28,16 @@ Definition dot_path (k : list N) : list N := 36 :: 46 :: esc_dot_cps k.
 (* keys the dot spelling is defined for: no control character *)
 Definition dot_char (c : N) : bool := negb (in_ranges c [(0, 31); (127, 127)]).
 
-(* a path of name steps, each in one of the three spellings, and index steps [digits]:  $ step step ...  *)
-Inductive kstep := SBr (q : N) (k : list N) | SDot (k : list N) | SIdx (ds : list N).
+(* a path of name steps, each in one of the three spellings, index steps [digits] and wildcard steps .* / [*]:  $ step step ...  *)
+Inductive kstep := SBr (q : N) (k : list N) | SDot (k : list N) | SIdx (ds : list N) | SWild (dot : bool).
 Definition render_step (s : kstep) : list N :=
   match s with
   | SBr q k => 91 :: q :: esc_cps q k ++ [q; 93]
   | SDot k => 46 :: esc_dot_cps k
   | SIdx ds => 91 :: ds ++ [93]
+  | SWild true => [46; 42]
+  | SWild false => [91; 42; 93]
   end.
-Definition step_cps (s : kstep) : list N := match s with SBr _ k | SDot k => k | SIdx ds => ds end.
+Definition step_cps (s : kstep) : list N := match s with SBr _ k | SDot k => k | SIdx ds => ds | SWild _ => [] end.
 Definition render_steps (steps : list kstep) : list N := flat_map render_step steps.
 Definition chain_path (steps : list kstep) : list N := 36 :: render_steps steps.
